@@ -112,10 +112,13 @@ def _main(a, prop, tier, seed, t0):
     for r in results.values():
         used_lemmas |= set(r.get("used_lemmas", []))
     used_lemmas |= set(meta.get("lemmas", []))
-    from pyvc.solve import check_valid
+    from pyvc.solve import check_valid, satisfiable
+    vacuous_lemmas = []
     for name in sorted(used_lemmas):
         for lab, prem, concl in theory.lemma_obligations(name):
             rr = check_valid(prem, concl, want_model=True)
+            if prem and satisfiable(prem, timeout=5) == "unsat":
+                vacuous_lemmas.append(f"lemma[{name}]{lab}")      # contradictory hypotheses would prove anything
             lemma_results.append({"id": f"lemma[{name}]{lab}", "status": rr["status"], "backend": rr["backend"],
                                   "time_s": round(rr["time_s"], 4), "kind": "lemma", "model": rr.get("model", "")[:3000]})
 
@@ -124,6 +127,7 @@ def _main(a, prop, tier, seed, t0):
     baseline = load_baseline()
     by_backend = {}
     solver_time = 0.0
+    crashes.extend(f"{v}: contradictory hypotheses (vacuous lemma proof)" for v in vacuous_lemmas)
     functions = []
     samples = []
     assumptions = set(GLOBAL_ASSUMPTIONS)
@@ -138,6 +142,8 @@ def _main(a, prop, tier, seed, t0):
         if r.get("unsupported"):
             undecided.append(f"{ident}: unbindable/unsupported: {r['unsupported']}")
             continue
+        if r.get("vacuity_requires") == "unsat":
+            crashes.append(f"{ident}: contradictory requires (vacuous contract)")
         if r.get("function"):
             f = dict(r["function"])
             f["contract"] = ident
